@@ -141,6 +141,21 @@ Definition rTrunc : rd trunc :=
   zh <- rOpt rZ ;; zm <- rOpt rZ ;;
   ret (mkTrunc h m s dow dom doy wk
          (match zh, zm with Some a, Some b => Some (mkZone a b) | _, _ => None end)).
+(* TimePoint._check_bounds on a truncated point (no year, no month): what the
+   constructor refuses before any addition can happen *)
+Definition in_rng_o (v : option Z) (lo hi : Z) : bool :=
+  match v with Some x => (lo <=? x)%Z && (x <=? hi)%Z | None => true end.
+Definition in_rng_q (v : option Q) (lo hi : Z) (strict : bool) : bool :=
+  match v with
+  | Some x => qleb (qz lo) x && (if strict then qltb x (qz hi) else qleb x (qz hi))
+  | None => true end.
+Definition trunc_bounds_ok (md : mode) (t : trunc) : bool :=
+  in_rng_o (t_dom t) 1 (MAX_DAYS_IN_MONTH md) && in_rng_o (t_week t) 1 (max_weeks_in_year md) &&
+  in_rng_o (t_doy t) 1 (DAYS_IN_YEAR_LEAP md) && in_rng_o (t_dow t) 1 7 &&
+  in_rng_q (t_hour t) 0 24 false &&
+  (if match t_hour t with Some h => qeqb h (qz 24) | None => false end
+   then in_rng_q (t_min t) 0 0 false && in_rng_q (t_sec t) 0 0 false
+   else in_rng_q (t_min t) 0 60 true && in_rng_q (t_sec t) 0 60 true).
 Definition sh_tres (r : tres) : string :=
   match r with TOk p => sh_tp p | THang => "HANG" | TErr => "ERR" end.
 (* (local day number, local second of day) of p read in zone z -- Spec level *)
@@ -249,7 +264,8 @@ Definition op_table : list (string * rd string) :=
             | _, _ => "ERR" end));
     (* truncated + full *)
     ("tadd", md <- rMode ;; t <- rTrunc ;; p <- rTp ;;
-       ret (match tp_add_trunc md t p with
+       ret (if negb (trunc_bounds_ok md t) then "ERR" else
+            match tp_add_trunc md t p with
             | TOk r => unwords [sh_tp r; ";"; sh_tres (tp_add_trunc md t r)]
             | x => sh_tres x end));
     ("s_truncexpect", md <- rMode ;; t <- rTrunc ;; p <- rTp ;; ret (trunc_expect md t p));
